@@ -18,6 +18,47 @@ func init() {
 	verifHarnesses["HarnessC12E2E"] = HarnessC12E2E
 	verifHarnesses["HarnessC12OutSeq"] = HarnessC12OutSeq
 	verifHarnesses["HarnessC12InBB"] = HarnessC12InBB
+	verifHarnesses["HarnessC12CloseBB"] = HarnessC12CloseBB
+}
+
+// HarnessC12CloseBB: a = {0 router | 1 tunnel, events pending 0..2}: group events arrive while the
+// application is not reading, the client is closed, and only then the application ranges over the
+// group Inbound channel: the loop ends (the group channel closes when the client's does), having
+// seen at most the pending events, in order.
+func HarnessC12CloseBB(a []int) {
+	pending := a[1]
+	mk := func(i int) cemi.Message {
+		return &cemi.LDataInd{LData: cemi.LData{Control2: cemi.Control2GroupAddr, Destination: uint16(100 + i),
+			Data: &cemi.AppData{Command: cemi.GroupValueWrite, Data: []byte{byte(i)}}}}
+	}
+	var events <-chan GroupEvent
+	if a[0] == 0 {
+		gr := newGroupRouterEnv()
+		in := knxnet.VerifInbound
+		events = gr.Inbound()
+		for i := 0; i < pending; i++ {
+			in <- &knxnet.RoutingInd{Payload: mk(i)}
+		}
+		verifQuiesce()
+		gr.Close()
+		close(in) // the socket's receiver ends after Close
+	} else {
+		gt, g, c := newBBGroupTunnelCh()
+		events = gt.Inbound()
+		for i := 0; i < pending; i++ {
+			g.in <- &knxnet.TunnelReq{Channel: c, SeqNumber: uint8(i), Payload: mk(i)}
+		}
+		verifQuiesce()
+		gt.Close()
+	}
+	verifQuiesce()
+	n := 0
+	for ev := range events {
+		verifAssert("C12.close.pending_in_order", int(ev.Destination) == 100+n)
+		n++
+	}
+	verifAssert("C12.close.at_most_the_pending_events", n <= pending)
+	verifCover("C12.close.end")
 }
 
 func c12Event(n int) GroupEvent {
